@@ -114,3 +114,21 @@ A(M("c10r4-count-groupby-keepna-silent", ["C10"], P2, None, None, kind="silent",
 A(M("c10r4-count-len-silent", ["C10"], P2, '        lambda x: x[["resSeq", "iCode"]].drop_duplicates().shape[0]\n', '        lambda x: len(x[["resSeq", "iCode"]].drop_duplicates())\n', kind="silent"))
 A(M("c10r4-atoms-without-ter", ["C10"], P2, "    if total_atoms + num_chains > max_pdb_serial:\n", "    if total_atoms > max_pdb_serial:\n", "feasibility"))
 A(M("c10r4-chains-ge", ["C10"], P2, "    if num_chains > max_pdb_chains:\n", "    if num_chains >= max_pdb_chains:\n", "feasibility"))
+
+# ---- write paths through a helper of the module (read where the helper is called / inlined), conditional expressions decided by the path
+_STORE_DEF = ("def main():", "def _store(table, path, as_pdb):\n    if as_pdb:\n        write_pdb(table, path)\n    else:\n        write_cif(table, path)\n\n\ndef main():")
+_STORE_OLD = "            if output_format == \"PDB\":\n                df_to_write = fit_to_pdb(model_df)\n                write_pdb(df_to_write, output_path)\n            else:  # mmCIF\n                write_cif(model_df, output_path)\n"
+A(M("c10r4-splitter-helper-silent", ["C10", "C09"], SP, None, None, kind="silent", edits=[_STORE_DEF, (_STORE_OLD, "            as_pdb = output_format == \"PDB\"\n            _store(fit_to_pdb(model_df) if as_pdb else model_df, output_path, as_pdb)\n")]))
+A(M("c10r4-splitter-helper-no-fit", ["C10"], SP, None, None, "fit-before-write", edits=[_STORE_DEF, (_STORE_OLD, "            as_pdb = output_format == \"PDB\"\n            _store(model_df, output_path, as_pdb)\n")]))
+A(M("c10r4-splitter-helper-fit-wrong-branch", ["C10"], SP, None, None, "fit-before-write", edits=[_STORE_DEF, (_STORE_OLD, "            as_pdb = output_format == \"PDB\"\n            _store(model_df if as_pdb else fit_to_pdb(model_df), output_path, as_pdb)\n")]))
+
+# ---- rows are written in the order of the table: write_cif (not evaluated) is read for reordering calls on the table
+A(M("c09r4-cif-sorted-rows", ["C09"], P2, "    for _, row in df.iterrows():\n        if format_type == \"mmCIF\":", "    for _, row in df.sort_values(list(df.columns[:2])).iterrows():\n        if format_type == \"mmCIF\":", "row-order"))
+A(M("c09r4-cif-sorted-columns-silent", ["C09"], P2, "        attributes = list(df.columns)\n", "        attributes = list(df.columns)\n        _known = sorted(df.columns)\n", kind="silent"))
+
+# ---- a module-level dict used as a memo of a mutable answer (sa/memo.py:dict_memo_sites + sa/memoshare.py)
+A(M("w3r4-dictmemo-frame", ["C15", "C09"], P2, None, None, "memo-shared-result", edits=[
+    ("def parse_pdb_atoms(", "_PARSED = {}\n\n\ndef parse_pdb_text(text: str) -> pd.DataFrame:\n    if text not in _PARSED:\n        _PARSED[text] = parse_pdb_atoms(text)\n    return _PARSED[text]\n\n\ndef parse_pdb_atoms("),
+    ("    if isinstance(content, str):\n        lines = content.splitlines()", "    if isinstance(content, str) and \"\\n\" not in content:\n        return parse_pdb_text(content + \"\\n\")\n    if isinstance(content, str):\n        lines = content.splitlines()")]))
+A(M("w3r4-dictmemo-int-silent", ["C15", "C09"], P2, None, None, kind="silent", edits=[
+    ("def can_write_pdb(", "_LIMITS = {}\n\n\ndef pdb_limit(field: str) -> int:\n    if field not in _LIMITS:\n        _LIMITS[field] = {\"serial\": 99999, \"resSeq\": 9999, \"chainID\": 1}[field]\n    return _LIMITS[field]\n\n\ndef can_write_pdb(")]))
